@@ -22,6 +22,11 @@ import (
 	"github.com/named-data/ndnd/std/utils"
 )
 
+// minMTU is the smallest MTU that face management accepts. Every frame of the NDNLPv2 link service carries
+// up to 34 bytes of link headers, possibly a PIT token (8 bytes) and a congestion mark (12 bytes), and must
+// still have room for a non-empty fragment; 64 is also NFD's MIN_MTU.
+const minMTU = 64
+
 // FaceModule is the module that handles Face Management.
 type FaceModule struct {
 	manager                *Thread
@@ -104,6 +109,13 @@ func (f *FaceModule) create(interest *spec.Interest, pitToken []byte, inFace uin
 	if (params.Flags != nil && params.Mask == nil) || (params.Flags == nil && params.Mask != nil) {
 		core.LogWarn(f, "Flags and Mask fields either both be present or both be not present")
 		response = makeControlResponse(409, "Incomplete Flags/Mask combination", nil)
+		f.manager.sendResponse(response, interest, pitToken, inFace)
+		return
+	}
+
+	if params.Mtu != nil && *params.Mtu < minMTU {
+		core.LogWarn(f, "MTU ", *params.Mtu, " is too small (minimum ", minMTU, ") in ControlParameters for ", interest.Name())
+		response = makeControlResponse(406, "MTU is too small", nil)
 		f.manager.sendResponse(response, interest, pitToken, inFace)
 		return
 	}
@@ -395,6 +407,12 @@ func (f *FaceModule) update(interest *spec.Interest, pitToken []byte, inFace uin
 		if params.Mask != nil {
 			responseParams["Mask"] = uint64(*params.Mask)
 		}
+		areParamsValid = false
+	}
+
+	if params.Mtu != nil && *params.Mtu < minMTU {
+		core.LogWarn(f, "MTU ", *params.Mtu, " is too small (minimum ", minMTU, ")")
+		responseParams["Mtu"] = uint64(*params.Mtu)
 		areParamsValid = false
 	}
 
